@@ -144,9 +144,6 @@ func Build(p *spec.Packet) (mq.Packet, error) {
 				if pr.ID == 0x18 {
 					c.SetWillDelayInterval(pr.N)
 				}
-				if pr.ID == 0x0b || pr.ID == 0x23 {
-					return nil, nc("will cannot carry property 0x%02x", pr.ID)
-				}
 			}
 			c.SetWill(wp)
 		}
